@@ -512,21 +512,25 @@ PROPS["C16"] = {
 # ---------------------------------------------------------------- C04 (partial)
 PROPS["C04"] = {
     "level": "model_checking", "engine": "mir-smt", "mir": True,
-    "technique": "symbolic execution of the MIR of the stream entry points and drop_table with the container as uninterpreted "
-                 "events; z3/cvc5 decide that an argument error is returned before any mutating event",
-    "claim": "A narrow part of the property only: for read_stream, write_stream, remove_stream and drop_table, from any state "
-             "of the dirty flags, an error caused by the arguments (invalid, reserved or unknown name) is returned before any "
-             "creating/removing container call, executor run or table-list change, without arming the finisher; stream names "
-             "are validated as stream names before the container is touched and the container is addressed by one "
-             "stream-style encoding of that name. The hard part of the property -- late failures of create_table (a column "
-             "definition the catalogue cannot store is refused only after the _Columns/_Tables rows were written; visible by "
-             "reading package.rs:609-675) and of batch inserts/updates inside the executors -- is NOT decided: the executors "
-             "and create_table's column loop are out of reach of both engines.",
-    "note": "Trusted: MIR translator, protocol models, z3/cvc5. Outside: Insert/Update/Delete::exec, create_table past its "
-            "argument checks, the frame condition on everything else (rows, summary, saved file).",
-    "bounds": "one call from an arbitrary flag state",
-    "outside": "executors, create_table's catalogue inserts, snapshots of the whole package state",
-    "assumptions": list(__import__("vlib.mir_protocol", fromlist=["x"]).PROTOCOL_MODELS_DOC),
+    "technique": "symbolic execution of the MIR of the stream entry points, drop_table and create_table (loops unrolled, insert_rows a "
+                 "fallible event, Column::is_valid_value an uninterpreted predicate) with the container as uninterpreted events; z3/cvc5 "
+                 "decide that an argument error is returned before any mutating event; counterexamples replayed through public-API scenarios",
+    "claim": "Part of the property: (1) for read_stream, write_stream, remove_stream and drop_table, from any state of the dirty flags, an "
+             "error caused by the arguments (invalid, reserved or unknown name) is returned before any creating/removing container call, "
+             "executor run or table-list change, without arming the finisher; stream names are validated as stream names before the container "
+             "is touched and the container is addressed by one stream-style encoding of that name. (2) create_table: before its FIRST catalog "
+             "insert or table registration, every batch it later hands to insert_rows was gone through completely with Column::is_valid_value "
+             "holding for every visited cell, against the columns of the catalog table it goes into - so a definition the catalog tables cannot "
+             "store (column/table names over 32 characters, oversized enumerations ...) is refused before anything changes. (3) the executors' "
+             "validate-before-mutate gates are decided under C07 (insert), C05 (update: assignments and key collisions) and C12 (select names). "
+             "NOT decided: the frame condition 'every observable identical' as a whole-package snapshot, failures of the medium, delete's gate.",
+    "note": "Trusted: MIR translator, protocol models, iterator models, z3/cvc5. On the pinned tree law (2) failed (a 33..64-character column "
+            "name was refused only by the _Validation insert, after _Columns and _Tables had been written and the table registered): fixed in "
+            "/repo 2dbe5fd.",
+    "bounds": "one call from an arbitrary flag state; create_table: one row and one cell visited per catalog batch, <= 1 column in the name-check loop",
+    "outside": "whole-package snapshots, medium failures, Delete::exec's gate",
+    "assumptions": list(__import__("vlib.mir_protocol", fromlist=["x"]).PROTOCOL_MODELS_DOC) + [
+        "Package::insert_rows is a fallible event inside create_table (its own gate is C07's law)"],
 }
 
 # ---------------------------------------------------------------- C11 (partial)
